@@ -1100,6 +1100,9 @@ where
 							let stream = BufReader::new(BufWriter::new(io.compat()));
 							let mut ws_builder = server.into_builder(stream);
 							ws_builder.set_max_message_size(this.server_cfg.max_request_body_size as usize);
+							// `max_request_body_size` is the only size limit: a frame beyond soketto's default frame size (256 MiB)
+							// is a message that is too large like any other - refused, not a reason to close the connection.
+							ws_builder.set_max_frame_size(usize::MAX);
 							let (sender, receiver) = ws_builder.finish();
 
 							let params = BackgroundTaskParams {
